@@ -512,19 +512,25 @@ namespace Pistache::Rest
                 return Route::Status::Match;
         }
 
-        auto& r              = routes[req.method()];
         const auto sanitized = SegmentTreeNode::sanitizeResource(resource);
         const std::string_view path { sanitized.data(), sanitized.size() };
-        auto result = r.findRoute(path);
 
-        auto route = std::get<0>(result);
-        if (route != nullptr)
+        // The table of routes is shared by all worker threads: look the method up,
+        // operator[] would insert an empty tree for a method nobody registered
+        const auto methodRoutes = routes.find(req.method());
+        if (methodRoutes != routes.end())
         {
-            auto params = std::get<1>(result);
-            auto splats = std::get<2>(result);
-            route->invokeHandler(Request(std::move(req), std::move(params), std::move(splats)),
-                                 std::move(resp));
-            return Route::Status::Match;
+            auto result = methodRoutes->second.findRoute(path);
+
+            auto route = std::get<0>(result);
+            if (route != nullptr)
+            {
+                auto params = std::get<1>(result);
+                auto splats = std::get<2>(result);
+                route->invokeHandler(Request(std::move(req), std::move(params), std::move(splats)),
+                                     std::move(resp));
+                return Route::Status::Match;
+            }
         }
 
         for (const auto& handler : customHandlers)
